@@ -84,10 +84,16 @@ def opClient (args : List String) (impl : String) : Verdict :=
       let auth : List (Option (Nat × Nat)) := match pk? with
         | some pk => pairs.map fun x => authentic realScheme Sha512.hash p pk x.1 (nonceOfRequest p x.1) x.2
         | none => []
+      let nonces := reqs.map (nonceOfRequest p)
+      let fresh : Option String :=
+        if ¬ nonces.Nodup then some "C01: two requests of one run carry the same nonce (a response to the earlier one is valid for the later one)"
+        else if nonces.any (fun n => n.length ≠ (if ver = .ietf then 32 else 64)) then some "C01,C03: request nonce does not have the protocol's length"
+        else none
       let c01 : Option String :=
-        match pk? with
-        | none => none
-        | some _ =>
+        match fresh, pk? with
+        | some e, _ => some e
+        | none, none => none
+        | none, some _ =>
           let printed := outs.length
           if printed > pairs.length then some "C01: more times printed than responses" else
           let bad := (List.range printed).find? fun j => (auth.getD j none).isNone
@@ -132,5 +138,15 @@ def opClient (args : List String) (impl : String) : Verdict :=
         else l2 label ("model: " ++ modelStr ++ " impl: " ++ implStr)
     | _, _ => bad "client: hex"
   | _ => bad "client: arity"
+
+/-- `noncepool <stream>`  impl: `total=N distinct=M` — nonces of all requests seen by a harness stream -/
+def opNoncePool (args : List String) (impl : String) : Verdict :=
+  match args with
+  | [stream] =>
+    let imp := parseKvs impl " "
+    if kvLookup imp "total" ≠ kvLookup imp "distinct" then
+      l1 ("noncepool:" ++ stream) ("C01: only " ++ kvLookup imp "distinct" ++ " distinct nonces in " ++ kvLookup imp "total" ++ " requests across runs")
+    else ok ("noncepool:" ++ stream) ("total=" ++ kvLookup imp "total")
+  | _ => bad "noncepool: arity"
 
 end Rough.Driver
